@@ -141,7 +141,7 @@ class ModbusRtuFramer(ModbusFramer):
             if not self._header:
                 try:
                     self.populateHeader()
-                except IndexError:
+                except (IndexError, struct.error):
                     # not enough data to tell the size of the frame yet
                     self._header = {}
                     return False
